@@ -180,12 +180,28 @@ def siterateKeys (KC : Codec K) (m : Store) (pfx : Bytes) (bwd : Bool) (stop : N
 
 def Store.deletePrefix (m : Store) (pfx : Bytes) : Store := m.filter fun e => !pfx.isPrefixOf e.1
 
-/-- `DeletePrefix` and `Clear` hand the store's answer through unwrapped. -/
+/-- The first `n` entries (in the store's iteration order) that satisfy `p` removed: what a bulk deletion that fails
+part-way leaves behind. -/
+def Store.dropFirst (p : Bytes × Bytes → Bool) : Nat → Store → Store
+  | 0, m => m
+  | _, [] => []
+  | n + 1, e :: rest => if p e then Store.dropFirst p n rest else e :: Store.dropFirst p (n + 1) rest
+
+/-- A bulk deletion of the underlying store (`DeletePrefix`, `Clear`) over the entries selected by `p`: it fails up front
+(`kv1`: nothing done), or **part-way** (`kvAfter = some n` with more than `n` entries to delete: the first `n` of them are
+gone, then the store reports the failure), or goes through (`full`). -/
+def bulkDelete (m : Store) (p : Bytes × Bytes → Bool) (full : Store) (F : SFaults) : Store × Option SErr :=
+  if F.kv1 then (m, some .kv)
+  else match F.kvAfter with
+    | some n => if n < (m.filter p).length then (m.dropFirst p n, some .kv) else (full, none)
+    | none => (full, none)
+
+/-- `DeletePrefix` and `Clear` hand the store's answer through unwrapped; what is left behind is what the store left. -/
 def sdeletePrefix (m : Store) (pfx : Bytes) (F : SFaults) : Store × Option SErr :=
-  if F.kv1 then (m, some .kv) else (m.deletePrefix pfx, none)
+  bulkDelete m (fun e => pfx.isPrefixOf e.1) (m.deletePrefix pfx) F
 
 def sclear (m : Store) (F : SFaults) : Store × Option SErr :=
-  if F.kv1 then (m, some .kv) else ([], none)
+  bulkDelete m (fun _ => true) [] F
 
 def sstep (KC : Codec K) (VC : Codec V) (m : Store) (op : SOp K V) (F : SFaults) : SRes K V :=
   match op with
